@@ -665,3 +665,44 @@ impl Nonce {
     proof { lemma_cookie_header_len(); }
 //@end
 }
+
+// ---------------------------------------------------------------- attributes/unknown.rs: an attribute of a type without a registered decoder
+//@item! stun_rs :: mod attributes > mod unknown > struct Unknown
+impl Unknown {
+    pub open spec fn data_view(&self) -> Option<Seq<u8>> { match self.attr_data { Some(a) => Some(a@), None => None } }
+//@item stun_rs :: mod attributes > mod unknown > impl Unknown > fn new
+//@tags C19 C18
+//@sig
+    pub fn new(attr_type: AttributeType, data: Option<&[u8]>) -> (r: Self)
+//@sub "data.into().map(Vec::from).map(Arc::new)" => "vx_opt_arc_vec(data)"
+//@spec
+    ensures r.attr_type == attr_type, r.data_view() == (match data { Some(d) => Some(d@), None => None::<Seq<u8>> }),
+//@end
+//@item stun_rs :: mod attributes > mod unknown > impl Unknown > fn attribute_type
+//@tags C19 C02
+//@spec
+    ensures r == self.attr_type,
+//@end
+//@item stun_rs :: mod attributes > mod unknown > impl Unknown > fn attribute_data
+//@tags C19
+//@closure 1
+|v: &Arc<Vec<u8>>| -> (s: &[u8])
+    ensures s@ == v@,
+//@spec
+    ensures r is Some <==> self.attr_data is Some, r is Some ==> r->Some_0@ == self.attr_data->Some_0@,
+//@end
+}
+impl EncodeAttributeValue for Unknown {
+    // an unknown attribute cannot be encoded
+    open spec fn wire(&self, enc: Seq<u8>) -> Seq<u8> { Seq::<u8>::empty() }
+    open spec fn encodable(&self, enc: Seq<u8>) -> bool { false }
+    open spec fn post_wire(&self, enc: Seq<u8>, val: Seq<u8>) -> Seq<u8> { val }
+    open spec fn post_ok(&self, enc: Seq<u8>, val: Seq<u8>) -> bool { false }
+//@item stun_rs :: mod attributes > mod unknown > impl EncodeAttributeValue for Unknown > fn encode
+//@tags C01 C14 C18
+//@end
+//@item stun_rs :: mod attributes > mod unknown > impl EncodeAttributeValue for Unknown > fn post_encode
+//@tags C01 C14 C18
+//@rules R5P
+//@end
+}
